@@ -9,16 +9,23 @@
         -> chunk sizes, lengths, leaf count; the appended tree itself is NOT prescribed (C08 only
            demands AppendOK), the harness sends the projected trees back for TraceUnixFSFile. *)
 EXTENDS UnixFSFile
-CONSTANTS Kind, GN, GM, GWidths, PartSel     \* PartSel: residue (mod 5) of the append cases that also get short chunks
+CONSTANTS Kind, GN, GM, GWidths,
+          SmallN, SmallM, SmallW,    \* the exhaustive core of the case space ...
+          SampleMod, Salt,           \* ... and a 1/SampleMod sample of the rest (SampleMod = 1: everything)
+          PartSel                    \* residue (mod 5) of the append cases that also get short last chunks
 VARIABLE case
 gvars == <<files, case>>
 
 Sizes(n, short) == [i \in 1..n |-> IF i = n /\ short THEN 1 ELSE ChunkSz]
+Sampled(x) == (x + Salt) % SampleMod = 0
 
+\* quick tier: all (layout, w, leaf kind, n) plain; the short-last-chunk / metadata variants for n <= SmallN and a sample
 ImportCases == {c \in [layout : {"bal", "tri"}, w : GWidths, lk : {"raw", "pb"}, n : 0..GN, short : BOOLEAN, meta : BOOLEAN] :
-                  c.n = 0 => ~c.short}
+                  /\ c.n = 0 => ~c.short
+                  /\ (c.short \/ c.meta) => (c.n <= SmallN \/ Sampled(c.n + 3 * c.w))}
 AppendCases == {c \in [w : GWidths, lk : {"raw", "pb"}, n : 0..GN, m : 1..GM, short : BOOLEAN, short2 : BOOLEAN] :
                   /\ c.n = 0 => ~c.short
+                  /\ (c.n <= SmallN /\ c.m <= SmallM /\ c.w <= SmallW) \/ Sampled(c.n * 61 + c.m * 7 + c.w)
                   /\ (c.short \/ c.short2) => (c.n + 2 * c.m + c.w) % 5 = PartSel}
 
 ImportExpected(c) ==
